@@ -27,16 +27,7 @@ func (t *T) WriteTo(w io.Writer) (int64, error) {
 	}
 	err = t.S.ForEach(func(k uint64) error {
 		buf[0] = byte(k)
-		buf[1] = 0
-		if k&1 == 1 {
-			buf[1] = 1
-		}
-		if k&2 == 2 {
-			buf[2] = 7
-		} else {
-			buf[2] = 9
-		}
-		m, err := w.Write(buf[:3])
+		m, err := w.Write(buf[:1])
 		if err != nil {
 			return err
 		}
@@ -90,7 +81,6 @@ func (t *T) WriteItems(w io.Writer) (int, error) {
 	var rec [9]byte
 	for k, v := range t.Items {
 		rec[0] = byte(k)
-		rec[8] = 0
 		if v {
 			rec[8] = 1
 		}
